@@ -58,7 +58,7 @@ pub mod sim {
     use super::*;
     pub struct NodeState { pub sm: StateMachine, pub applied: usize, pub addr: SocketAddr, pub handler: Option<CustomHandler>, pub voter: bool }
     #[derive(Default)]
-    pub struct Cluster { pub log: Vec<Vec<u8>>, pub results: Vec<Option<std::result::Result<Bytes, String>>>, pub nodes: HashMap<u64, NodeState>, pub leader: Option<u64>, pub rpc_seq: u64, pub apply_events: Vec<(u64, usize)> }
+    pub struct Cluster { pub log: Vec<Vec<u8>>, pub results: Vec<Option<std::result::Result<Bytes, String>>>, pub nodes: HashMap<u64, NodeState>, pub leader: Option<u64>, pub rpc_seq: u64, pub apply_events: Vec<(u64, usize, u64)> }
     thread_local! { static CLUSTER: RefCell<Cluster> = RefCell::new(Cluster::default()); }
     pub fn with<R>(f: impl FnOnce(&mut Cluster) -> R) -> R { CLUSTER.with(|c| f(&mut c.borrow_mut())) }
     pub fn reset() { with(|c| *c = Cluster::default()); }
@@ -67,7 +67,7 @@ pub mod sim {
         let next = with(|c| { let n = c.nodes.get(&node)?; if n.applied < c.log.len() { Some((n.applied, c.log[n.applied].clone(), n.sm.clone())) } else { None } });
         let Some((idx, cmd, sm)) = next else { return false; };
         let res = sm.apply(&cmd);
-        with(|c| { c.nodes.get_mut(&node).unwrap().applied = idx + 1; c.apply_events.push((node, idx)); if c.leader == Some(node) { if c.results.len() <= idx { c.results.resize(idx + 1, None); } c.results[idx] = Some(res); } });
+        with(|c| { c.nodes.get_mut(&node).unwrap().applied = idx + 1; c.apply_events.push((node, idx, tokio::rt::RT.with(|r| r.borrow().steps))); if c.leader == Some(node) { if c.results.len() <= idx { c.results.resize(idx + 1, None); } c.results[idx] = Some(res); } });
         true
     }
 }
